@@ -19,12 +19,28 @@ pub fn write_case(ctx: &mut Ctx, fl: Flavour, compressed: bool, frames: &[Vec<u8
         ctx.count("write cases skipped (frame not decodable/encodable)");
         return;
     }
+    let packets_n = packets.len();
     let (r, results) = run_writes(fl, compressed, packets, wscript.clone());
     let fr = if encoded.is_empty() { "-".to_string() } else { encoded.iter().map(|f| hex(f)).collect::<Vec<_>>().join("+") };
     let op = format!("framed.write {} {} {} {}", fl.tok(), mode_tok(compressed), fr, wscript_text(&wscript));
     let res = format!("{} | out={}", if results.is_empty() { "-".to_string() } else { results.join(",") }, hex(&r.out));
     ctx.case(&op, &res);
     // oracle
+    // independent of what the encoder thinks a frame is: cut the bytes that reached the transport by their size bytes —
+    // after n successful writes they must be exactly n frames, nothing before, between or after them
+    if results.iter().all(|r| r == "ok") && results.len() == packets_n {
+        let mut pos = 0usize;
+        let mut n = 0usize;
+        while pos < r.out.len() {
+            let len = if compressed { r.out[pos] as usize * 4 } else { r.out[pos] as usize };
+            if len < 4 || pos + len > r.out.len() { break; }
+            pos += len;
+            n += 1;
+        }
+        if pos != r.out.len() || n != packets_n {
+            ctx.violation(&format!("c06/stream-not-frames/{}", fl.tok()), "the bytes on the transport are not exactly one self-delimiting frame per written packet (stray bytes before, between or after frames)", &op, &format!("{} frames, {} bytes, all accounted for by their size bytes", packets_n, r.out.len()), &format!("{} frames cover {} of {} bytes: {}", n, pos, r.out.len(), truncate(&hex(&r.out), 160)));
+        }
+    }
     let all: Vec<u8> = encoded.concat();
     let healthy = !wscript.iter().any(|w| matches!(w, WEv::IoErr | WEv::Accept(0)));
     let all_ok = results.iter().all(|r| r == "ok") && results.len() == encoded.len();
